@@ -11,7 +11,7 @@
   the whole language (statements, loops, functions, computed values, templates, containers, dice under min/max mode) is
   compared with the definitional semantics over source trees (DS/Model/RefEval.lean) by the `ref` stream.
 -/
-import DS.Proofs.FragCompile
+import DS.Proofs.FragStmts
 
 namespace DS.Props.C02
 open DS.VM DS.Frag
@@ -37,19 +37,19 @@ def frame0 (code : Code) : Frame := { ctx := 0, code := code, stack := newStack 
 
 /-- C02, fragment: compiled code computes what the definitional semantics prescribes -/
 theorem compile_correct (e : F) (g : G) (hl : g.cfg.opLimit = 0) (hd : depth e < stackSize) :
-    (match evalF g.cfg.ignoreDiv0 g.heap e with
+    (match evalF g.cfg.ignoreDiv0 (ctxAttrs g 0) g.heap e with
      | (h', .ok v) => ∃ k g' out, (∀ fuel, evalLoop (fuel + k) g (frame0 (prog e)) = (g', .ok out)) ∧ out.top = some v ∧ g'.heap = h'
      | (h', .err m) => ∃ k g', (∀ fuel, evalLoop (fuel + k) g (frame0 (prog e)) = (g', .err m)) ∧ g'.heap = h'
      | _ => True) := by
   have hcode : CodeAt (frame0 (prog e)).code (frame0 (prog e)).pc (compile e ++ [Instr.halt]) := codeAt_toArray _
   have hready : Ready g.cfg.ignoreDiv0 g (frame0 (prog e)) := ⟨hl, rfl, by simp [frame0, newStack]⟩
-  have hrun := run_compile g.cfg.ignoreDiv0 e g (frame0 (prog e)) hcode.append_left hready (by simpa [frame0] using hd)
-  cases hev : evalF g.cfg.ignoreDiv0 g.heap e with
+  have hrun := run_compile g.cfg.ignoreDiv0 (ctxAttrs g 0) e g (frame0 (prog e)) hcode.append_left hready rfl (by simpa [frame0] using hd)
+  cases hev : evalF g.cfg.ignoreDiv0 (ctxAttrs g 0) g.heap e with
   | mk h' r =>
     rw [hev] at hrun
     cases r with
     | ok v =>
-      obtain ⟨k, g', f', hruns, haft, hcfg, hheap⟩ := hrun
+      obtain ⟨k, g', f', hruns, haft, hcfg, hheap, _⟩ := hrun
       have hh := hcode.append_right.head
       have hpcH : f'.pc < f'.code.size := by rw [haft.code, haft.pc]; exact hh.1
       have hiH : f'.code[f'.pc]! = Instr.halt := by rw [haft.code, haft.pc]; exact hh.2
@@ -70,7 +70,59 @@ theorem compile_correct (e : F) (g : G) (hl : g.cfg.opLimit = 0) (hd : depth e <
     | unsup _ => trivial
     | diverge => trivial
 
+/-- the whole program for a statement sequence -/
+def progS (ss : List F) : Code := (compileS ss ++ [Instr.halt]).toArray
+
+/-- C02, fragment with variables and statement sequences: `s1; …; sn` — each statement an expression of the fragment, now including
+    variable references and assignments (themselves expressions) — run by the dispatch loop from an empty stack yields exactly the
+    value of the LAST statement under the definitional semantics `evalS`, or exactly its first error, with the same heap (the heap
+    holds the variables: the context's attribute table). -/
+theorem program_correct (ss : List F) (hne : ss ≠ []) (g : G) (hl : g.cfg.opLimit = 0) (hd : depthS ss < stackSize) :
+    (match evalS g.cfg.ignoreDiv0 (ctxAttrs g 0) g.heap ss with
+     | (h', .ok v) => ∃ k g' out, (∀ fuel, evalLoop (fuel + k) g (frame0 (progS ss)) = (g', .ok out)) ∧ out.top = some v ∧ g'.heap = h'
+     | (h', .err m) => ∃ k g', (∀ fuel, evalLoop (fuel + k) g (frame0 (progS ss)) = (g', .err m)) ∧ g'.heap = h'
+     | _ => True) := by
+  have hcode : CodeAt (frame0 (progS ss)).code (frame0 (progS ss)).pc (compileS ss ++ [Instr.halt]) := codeAt_toArray _
+  have hready : Ready g.cfg.ignoreDiv0 g (frame0 (progS ss)) := ⟨hl, rfl, by simp [frame0, newStack]⟩
+  have hrun := run_stmts g.cfg.ignoreDiv0 (ctxAttrs g 0) ss g (frame0 (progS ss)) hne hcode.append_left hready rfl (by simpa [frame0] using hd)
+  cases hev : evalS g.cfg.ignoreDiv0 (ctxAttrs g 0) g.heap ss with
+  | mk h' r =>
+    rw [hev] at hrun
+    cases r with
+    | ok v =>
+      obtain ⟨k, g', f', hruns, haft, hcfg, hheap⟩ := hrun
+      have hh := hcode.append_right.head
+      have hpcH : f'.pc < f'.code.size := by rw [haft.code, haft.pc]; exact hh.1
+      have hiH : f'.code[f'.pc]! = Instr.halt := by rw [haft.code, haft.pc]; exact hh.2
+      have hlen : 1 ≤ ss.length := by cases ss with | nil => exact absurd rfl hne | cons _ _ => simp
+      have hdl : ∀ l : List F, l.length ≤ depthS l := by
+        intro l
+        induction l with
+        | nil => simp [depthS]
+        | cons e r ih => simp only [depthS, List.length_cons]; omega
+      have hdl := hdl ss
+      have htop : f'.top = ss.length := by rw [haft.top]; simp [frame0]
+      have hst : stackSize = 1000 := rfl
+      refine ⟨1 + k, addOps g' f'.ctx 1, { top := some (f'.stack[f'.top - 1]!), spans := solvedSpans (addOps g' f'.ctx 1) { f' with pc := f'.pc + 1 } }, ?_, ?_, hheap⟩
+      · intro fuel
+        have := hruns (fuel + 1)
+        rw [Nat.add_assoc] at this
+        rw [this, step_halt fuel g' f' hpcH hiH (by rw [hcfg]; exact hl) (by omega) (by omega)]
+      · simp only; rw [haft.val]
+    | err m =>
+      obtain ⟨k, g', hf, hheap⟩ := hrun
+      exact ⟨k, g', hf, hheap⟩
+    | panic _ => trivial
+    | unsup _ => trivial
+    | diverge => trivial
+
 /-! ### non-vacuity and the shapes the compiler emits -/
+
+/-- `x = 5; x + 1` (a variable assigned, then read) -/
+example : compileS [.asg "x" (.lit 5), .bin .add (.var "x" 7 8) (.lit 1)] =
+    [.pushInt 5, .store "x", .markDetail 7 8, .ldD "x", .pushInt 1, .bin .add] := by
+  simp [compileS, compile]
+
 
 example : compile (.tern (.lit 1) (.bin .add (.lit 2) (.lit 3)) (.bin .mul (.lit 4) (.lit 5))) =
     [.pushInt 1, .jne (some 4), .pushInt 2, .pushInt 3, .bin .add, .jmp (some 3), .pushInt 4, .pushInt 5, .bin .mul] := by
@@ -79,5 +131,14 @@ example : compile (.tern (.lit 1) (.bin .add (.lit 2) (.lit 3)) (.bin .mul (.lit
 example : compile (.lor (.lit 1) (.bin .add (.lit 2) (.lit 3))) =
     [.pushInt 1, .jeDup (some 5), .pushInt 2, .pushInt 3, .bin .add, .jeDup (some 1), .pushLast] := by
   simp [compile]
+
+/-- the definitional semantics on a concrete program: `x = 5; x + 1` is 6 … -/
+def heap0 : Heap := #[Obj.dict []]
+example : (match evalS false 0 heap0 [.asg "x" (.lit 5), .bin .add (.var "x" 7 8) (.lit 1)] with | (_, .ok (.int i)) => i == 6 | _ => false) = true := by decide
+/-- … an unbound name is outside the fragment (the theorem says nothing there: enclosing scopes, globals, builtins) … -/
+example : (match evalS false 0 heap0 [.bin .add (.var "x" 0 1) (.lit 1)] with | (_, .unsup _) => true | _ => false) = true := by decide
+/-- … and a program that fails keeps the assignments made before the failure -/
+example : (match evalS false 0 heap0 [.asg "x" (.lit 5), .bin .div (.var "x" 7 8) (.lit 0)] with
+    | (h, .err _) => (dictGet (h.dictOf 0) "x" matches some (.int 5)) | _ => false) = true := by decide
 
 end DS.Props.C02
